@@ -511,6 +511,9 @@ func (n *Net) ListenTCP(addr *net.TCPAddr, owner string) (*Listener, error) {
 		a.Port = n.nextEphem
 	}
 	for _, l := range n.tcpL[a.Port] {
+		if (l.Owner == "backend") != (owner == "backend") {
+			continue // another host: its sockets cannot conflict with ours
+		}
 		if unspecified(l.addr.IP) || unspecified(a.IP) || l.addr.IP.Equal(a.IP) {
 			n.logf("listen-fail tcp %s (in use)", a)
 			return nil, &net.OpError{Op: "listen", Net: "tcp", Addr: a, Err: syscall.EADDRINUSE}
@@ -538,10 +541,15 @@ func (n *Net) Listen(network, address string) (net.Listener, error) {
 func (n *Net) Connect(src, dst *net.TCPAddr) (*Endpoint, error) {
 	n.mu.Lock()
 	var l *Listener
-	for _, x := range n.tcpL[dst.Port] {
-		if unspecified(x.addr.IP) || x.addr.IP.Equal(dst.IP) {
+	for _, x := range n.tcpL[dst.Port] { // an exact address first (it may belong to another host)
+		if !unspecified(x.addr.IP) && x.addr.IP.Equal(dst.IP) {
 			l = x
 			break
+		}
+	}
+	for _, x := range n.tcpL[dst.Port] {
+		if l == nil && unspecified(x.addr.IP) {
+			l = x
 		}
 	}
 	if l == nil {
@@ -633,7 +641,7 @@ func (n *Net) UDPSockets() []string {
 	var out []string
 	for _, ls := range n.udpS {
 		for _, l := range ls {
-			if !l.connected {
+			if !l.connected && !l.remote {
 				out = append(out, l.addr.String())
 			}
 		}
@@ -659,10 +667,22 @@ type UDPSock struct {
 	w         waker
 	queue     []Datagram
 	closed    bool
+	remote    bool         // lives on another host of the simulated network
 	connected bool         // created by Dial: Read/Write are allowed
 	peerAddr  *net.UDPAddr // for connected sockets
 	rdl       time.Time
 	Out       []Datagram // everything written from this socket
+}
+
+// ListenUDPRemote opens a datagram socket on another host of the simulated network (a backend).
+func (n *Net) ListenUDPRemote(laddr *net.UDPAddr) (*UDPSock, error) {
+	n.mu.Lock()
+	defer n.mu.Unlock()
+	u := &UDPSock{n: n, addr: &net.UDPAddr{IP: laddr.IP, Port: laddr.Port}, remote: true}
+	n.allUDP = append(n.allUDP, u)
+	n.udpS[laddr.Port] = append(n.udpS[laddr.Port], u)
+	n.logf("listen udp %s (remote host)", u.addr)
+	return u, nil
 }
 
 func (n *Net) ListenUDP(network string, laddr *net.UDPAddr) (*UDPSock, error) {
@@ -678,7 +698,7 @@ func (n *Net) ListenUDP(network string, laddr *net.UDPAddr) (*UDPSock, error) {
 		a.Port = n.nextEphem
 	}
 	for _, l := range n.udpS[a.Port] {
-		if l.connected {
+		if l.connected || l.remote {
 			continue
 		}
 		if unspecified(l.addr.IP) || unspecified(a.IP) || l.addr.IP.Equal(a.IP) {
@@ -708,12 +728,14 @@ func (n *Net) SendUDP(from, to *net.UDPAddr, payload []byte) bool {
 	n.mu.Lock()
 	var u *UDPSock
 	for _, x := range n.udpS[to.Port] {
-		if x.closed {
-			continue
-		}
-		if unspecified(x.addr.IP) || x.addr.IP.Equal(to.IP) {
+		if !x.closed && !unspecified(x.addr.IP) && x.addr.IP.Equal(to.IP) {
 			u = x
 			break
+		}
+	}
+	for _, x := range n.udpS[to.Port] {
+		if u == nil && !x.closed && unspecified(x.addr.IP) {
+			u = x
 		}
 	}
 	n.stat(func(x *Stats) { x.DgramsIn++ })
@@ -797,9 +819,14 @@ func (u *UDPSock) WriteToUDP(b []byte, addr *net.UDPAddr) (int, error) {
 	var dst *UDPSock
 	if addr != nil {
 		for _, x := range n.udpS[addr.Port] {
-			if !x.closed && (unspecified(x.addr.IP) || x.addr.IP.Equal(addr.IP)) {
+			if !x.closed && !unspecified(x.addr.IP) && x.addr.IP.Equal(addr.IP) {
 				dst = x
 				break
+			}
+		}
+		for _, x := range n.udpS[addr.Port] {
+			if dst == nil && !x.closed && unspecified(x.addr.IP) {
+				dst = x
 			}
 		}
 	}
